@@ -363,6 +363,12 @@ struct TemplateCore {
                                 const SizeT  true_offset =
                                     tag.TrueOffset; // See the end of 'case TagPatterns::InLineIfID:'
 
+                                if (((end_offset - tag.Offset) > SizeT{0xFFFF}) || (tag.SubTags.Size() > SizeT{0xFF})) {
+                                    // Too large for the 16-bit offsets / 8-bit sub-tag ids of an inline if: leave it as text.
+                                    storage->Drop(SizeT{1});
+                                    break;
+                                }
+
                                 SizeT offset = tag.Offset;
                                 offset += true_offset;
                                 tag.TrueOffset = 0;
